@@ -7,8 +7,8 @@ VERUS = {
     # div_ops.rs `mod repr`: div_rem_dword, div_dword, rem_dword, div_rem_large_dword, rem_large_dword, div_rem_in_lhs,
     # div_rem_large, div_large, rem_large + div/mod.rs glue normalize, div_rem_in_place (schoolbook / divide-and-conquer
     # switch), div_rem_unshifted_in_place + primitive::shrink_dword.  Post: a == q*b + r, 0 <= r < b (total variant,
-    # divisor != 0).  Trusted: Buffer/Repr stubs, num_modular divisor stub, ASSUMED contract of
-    # divide_conquer::div_rem_in_place (same text as the one proved for simple::div_rem_in_place).
+    # divisor != 0).  Trusted: Buffer/Repr stubs, num_modular divisor stub, MemoryAllocation/Layout stubs; the
+    # divide-and-conquer branch is seen through the contract proved in int_div_dc.
     'int_div_ops': {'file': 'int_div_ops.rs', 'w32': True},
     # must_panic variants: divisor == 0 ==> no normal return (div_rem_dword, div_dword, rem_dword, div_rem_large_dword,
     # rem_large_dword)
@@ -46,8 +46,9 @@ PROP_UNITS = {
                           '(needs > 32-word operands: infeasible for CBMC)',
                           'the match dispatch of impl Div/Rem/DivRem for TypedRepr(Ref) in div_ops.rs::repr (the functions '
                           'it dispatches to are proved)',
-                          'ConstLargeDivisor::{new, divisor, rem_large, rem_repr}, ConstDivisor::new/from_word/from_dword, '
-                          'impl Div<&ConstDivisorRepr> for TypedReprRef is not in the code; UBig/IBig wrappers of div_const.rs']},
+                          'div_const.rs: ConstLargeDivisor::{new, divisor, rem_large, rem_repr}, ConstDivisor::{new, from_word, '
+                          'from_dword, value} and the UBig/IBig operator wrappers are not under contract (ConstLargeDivisor::wf '
+                          'states what `new` must establish)']},
     'C16': {'verus': ['int_div_simple', 'int_div_ops', 'int_div_ops_zero', 'int_div_const', 'int_div_dc']},
     'C19': {'verus': ['int_div_simple', 'int_div_ops', 'int_div_const', 'int_div_dc']},
 }
